@@ -205,6 +205,32 @@ func genC05(g *gen) {
 			g.mustReject("a duplicated hint index", msg, s[:], pk, i < 2)
 		}
 	}
+	// (1') the same at every adjacent pair of every row, over several signatures (rows ending in index 255, long rows, …)
+	for m := 0; m < 24; m++ {
+		mm := []byte(fmt.Sprintf("strictness %d", m))
+		sg, _ := z.Sign(mm)
+		h2 := sg[hoff:]
+		for i := 0; i < 8; i++ {
+			lo := 0
+			if i > 0 {
+				lo = int(h2[dOmega+i-1])
+			}
+			for p := lo; p+1 < int(h2[dOmega+i]); p++ {
+				s := sg
+				s[hoff+p], s[hoff+p+1] = s[hoff+p+1], s[hoff+p]
+				g.mustReject(fmt.Sprintf("unordered hint indices (%d before %d)", s[hoff+p], s[hoff+p+1]), mm, s[:], pk, false)
+			}
+			// duplicate the last index of the row into the next slot when the row is the last non-empty one and padding is free:
+			// same hint set, one repeated index (accepted iff the ordering test is not strict there)
+			if i == 7 && int(h2[dOmega+7]) < dOmega && int(h2[dOmega+7]) > lo {
+				s := sg
+				t := int(h2[dOmega+7])
+				s[hoff+t] = s[hoff+t-1]
+				s[hoff+dOmega+7]++
+				g.mustReject(fmt.Sprintf("a repeated last hint index (%d)", s[hoff+t]), mm, s[:], pk, false)
+			}
+		}
+	}
 	// (2) non-zero padding at every padding position
 	for j := total; j < dOmega; j++ {
 		s := sig
